@@ -31,6 +31,8 @@ def tasks(tier):
                     "drop": ["before_transition"] if values == "first_none" else [],
                     "send_events": ["go", "hop"] if quick else ["go", "hop", "tick"]})
 
+    for engine in ("sync", "async"):
+        out.append({"kind": "burst", "engine": engine})
     for first in range(3):
         if quick:
             hist("async", True, 3, first, 1)
@@ -64,8 +66,8 @@ BOUNDS = {
     "all-async (pre-state a; from-construction with 1 nested send); self-triggering chain of symbolic length N<=4 with call-stack depth compared link by link.",
     "thorough": "as quick with histories of 2 top-level events, a listener adding 3 more callbacks per transition, nested events {go,hop,tick}, all pre-states on the async engine, chain N<=8.",
 }
-OUTSIDE = "more than 3 nested sends per history; chains longer than the bound are covered by the depth-equality step and by one concrete 5000-link run (sanity, reported separately); OS threads (C06)"
-OBLIGATIONS = ["first-result-none", "nested-send", "queued-event-ran", "from-construction", "chain-link", "nested-send-failed", "failed-call:TNA"]
+OUTSIDE = "more than 3 nested sends per history; chains longer than the bound are covered by the depth-equality step and by one concrete 5000-link run (sanity, reported separately); more than a handful of *pending* events - backed by one concrete burst of (queue capacity + 1, or 1100) sends from one callback per engine, which is a test of the no-capacity assumption, not a solver result; OS threads (C06)"
+OBLIGATIONS = ["burst-all-processed", "first-result-none", "nested-send", "queued-event-ran", "from-construction", "chain-link", "nested-send-failed", "failed-call:TNA"]
 ASSUMPTIONS = [
     "classes/instances built natively except in the from-construction scenario; every send() under the tracer",
     "order inside a callback group is free; FIFO is judged on the order in which the nested sends were observed",
@@ -76,6 +78,10 @@ ASSUMPTIONS = [
 def run(ctx, params):
     if params["kind"] == "chain":
         return run_chain(ctx, params)
+    if params["kind"] == "burst":
+        from harness.eng_common import burst_check
+
+        return burst_check(ctx, params["engine"], PROPERTY)
     p = dict(params)
     p["events"] = [EVENTS[params["first"]]]  # first call's event is fixed by the task, later calls choose freely
     return run_first_fixed(ctx, p)
